@@ -1435,7 +1435,7 @@ def run_fuzzy(tier, seed):
                 if tw:
                     terms.append(tw[0])
             do_fuzzy(sid, g, idx, sorted(attrs), terms, fam_name=fam_name, featfn=form_feature,
-                     ways=('dict', 'str')[(j // 8) % 2:][:1] if quick and not has_native([(0, 0, t)]) else ('str', 'dict'))
+                     ways=('dict', 'str')[(j // 8) % 2:][:1] if quick and not isinstance(t, NativeReq) else ('str', 'dict'))
 
     for k, docs in doc_sets(tier, seed + 1, n_sets):
         g = export(docs)
